@@ -149,6 +149,51 @@ pub fn enumerate<V: Variant>(r: &mut Report, ctx: &Ctx, prop: &str) {
             },
         );
     }
+    let name = format!("digit-pairs-{}", V::NAME);
+    if ctx.want(&name) {
+        let classes: Vec<u8> = b"0123456789abcdefABCDEF".iter().copied().chain([b'g', b'@', 0x80]).collect();
+        r.section(
+            &name,
+            "every aligned character pair (one encoded byte) of every base string replaced by every pair over the 22 hex digits of both cases plus 3 invalid bytes: mixed-case pairs, digit/letter pairs and half-invalid pairs at every byte of header and body; non-trivial = pairs with an invalid member",
+            &format!("6 bases x {} bytes x 25^2 pairs", V::STRLEN / 2),
+            true,
+            |s| {
+                let classes = &classes;
+                let nbytes = (V::STRLEN / 2) as u64;
+                s.acc = par_for(6 * nbytes * 25, 64, |idx, acc| {
+                    let c0 = classes[(idx % 25) as usize];
+                    let byte = ((idx / 25) % nbytes) as usize;
+                    let b = (idx / 25 / nbytes) as usize;
+                    let mut st = base(b);
+                    // pairs are aligned to the digits (after the optional prefix)
+                    let off = if st.len() == V::STRLEN { 2 } else { 0 };
+                    let pos = off + byte * 2;
+                    if pos + 1 >= st.len() {
+                        return;
+                    }
+                    st[pos] = c0;
+                    for &c1 in classes.iter() {
+                        st[pos + 1] = c1;
+                        acc.evals += 1;
+                        acc.transitions += 7;
+                        if !c0.is_ascii_hexdigit() || !c1.is_ascii_hexdigit() {
+                            acc.nontrivial += 1;
+                        }
+                        match judge_parse::<V>(&st) {
+                            Ok(fp) => acc.outcomes.insert(fp),
+                            Err(e) => {
+                                acc.fail(idx * 25 + c1 as u64, &name, e, json!({"kind": "parse", "variant": V::NAME, "string": hex(&st), "property": prop}));
+                                return;
+                            }
+                        }
+                    }
+                    if idx % 4001 == 0 {
+                        acc.sample(idx, || json!({"variant": V::NAME, "base": b, "byte": byte, "first_char": c0 as char, "second_char": "all 25 classes"}));
+                    }
+                });
+            },
+        );
+    }
     let name = format!("utf8-{}", V::NAME);
     if ctx.want(&name) {
         r.section(
